@@ -50,6 +50,39 @@ Theorem C12_nothing_else_created :
 Proof. exact created_swap. Qed.
 Print Assumptions C12_nothing_else_created.
 
+(* GENERAL: the acceptance rule is the Metropolis rule of pi(g) = product over the edges of the target
+   weight of the edge's pairing.  For a target symmetric on the network's pairings, whenever
+   swap_condition reaches the Metropolis draw: numerator = product over the proposal edges,
+   denominator = product over the removed corner edges (this is [ratio_ok], the checker run on the
+   implementation's numerator and denominator) ... *)
+Theorem C12_ratio :
+  forall fixed nodes tg u0 v0 a0 a1 props top bot,
+    SymT nodes tg -> length a0 = length a1 ->
+    (forall e, In e a0 -> touches u0 e = true) -> (forall e, In e a1 -> touches v0 e = true) ->
+    swap_pre fixed nodes tg u0 v0 a0 a1 = PNeed props top bot ->
+    top == prodw nodes tg props /\ bot == prodw nodes tg (a0 ++ a1).
+Proof. exact swap_pre_ratio. Qed.
+Print Assumptions C12_ratio.
+
+Theorem C12_ratio_checker :
+  forall fixed nodes tg u0 v0 a0 a1 props top bot,
+    SymT nodes tg -> length a0 = length a1 ->
+    (forall e, In e a0 -> touches u0 e = true) -> (forall e, In e a1 -> touches v0 e = true) ->
+    swap_pre fixed nodes tg u0 v0 a0 a1 = PNeed props top bot ->
+    ratio_ok nodes tg (a0 ++ a1) props top bot = true.
+Proof. exact swap_pre_ratio_ok. Qed.
+Print Assumptions C12_ratio_checker.
+
+(* ... hence top / bot = pi(g') / pi(g) (cross-multiplied, so no support hypothesis is needed) *)
+Theorem C12_ratio_pi :
+  forall N es u0 v0 m0 m1 a0 a1 fixed prs nodes tg top bot,
+    WF N es -> Permutation a0 (corner_edges es u0 m0) -> Permutation a1 (corner_edges es v0 m1) ->
+    SuitFacts es u0 v0 m0 m1 a0 a1 ->
+    top == prodw nodes tg (swap_props u0 v0 fixed prs) -> bot == prodw nodes tg (a0 ++ a1) ->
+    prodw nodes tg (swap_es' es u0 v0 m0 m1 fixed prs) * bot == prodw nodes tg es * top.
+Proof. exact swap_ratio_pi. Qed.
+Print Assumptions C12_ratio_pi.
+
 (* the checker is the specification: *)
 Theorem C12_checker_iff :
   forall nodes tg es es',
@@ -66,3 +99,17 @@ Example C12_nonvacuous :
   step_allowed nodes tg es [mkE 0 3 0 0; mkE 1 2 0 1]%Z = true /\
   step_allowed nodes [[([0;1;0;1]%Z, 0#1)]] es [mkE 0 3 0 0; mkE 1 2 0 1]%Z = false.
 Proof. vm_compute. split; reflexivity. Qed.
+
+(* non-vacuity of SymT: a symmetric target on a 4-vertex network *)
+Example C12_nonvacuous_sym :
+  SymT [[1;1];[1;1];[1;1];[1;1]]%Z [[([0;1;0;1]%Z, 1#2)]].
+Proof.
+  intros t a b ka kb Ha Hb.
+  assert (X : forall v k, exk [[1;1];[1;1];[1;1];[1;1]]%Z t v = Some k ->
+              k = match t with O => [0;1]%Z | S O => [1;0]%Z | _ => [] end).
+  { intros v k H. unfold exk, jd_of in H.
+    destruct (Z.to_nat v) as [|[|[|[|n]]]]; cbn [nth] in H;
+      try (destruct t as [|[|t]]; cbn in H; [injection H as <-; reflexivity|injection H as <-; reflexivity|destruct t; cbn in H; discriminate]).
+    destruct n; destruct t; cbn in H; discriminate. }
+  rewrite (X a ka Ha), (X b kb Hb). reflexivity.
+Qed.
